@@ -6,6 +6,9 @@ var Checks = map[string]func(*Env) int{
 	"C02": CheckC02,
 	"C03": CheckC03,
 	"C04": CheckC04,
+	"C05": CheckC05,
+	"C06": CheckC06,
+	"C08": CheckC08,
 }
 
 // Replay re-runs a saved replay bundle against the current tree.
